@@ -114,8 +114,10 @@ def grey_dt_literal(t, s):
 
 def crash_prone(t, s):
     """literals that hit one of the memory-safety findings of notes/C09.md; they are executed in a sample only"""
-    if s == '' and D.involves_variety(t, 'list'):
-        return 'empty-list-canon'
+    # (the empty list value used to be on this list: KF-C09-07, repaired by /repo commit 02696c0; negative years in
+    #  date canonical forms: KF-C09-06, repaired by 7e13621; years of ten and more digits: KF-C09-08, repaired by 5f4368b.
+    #  Nothing is sampled any more: every literal is executed completely.)
+    return None
     if D.involves(t, ('date', 'dateTime')) and re.search(r'(^|\s)-[0-9]{4,}-', s):
         return 'neg-year-canon'
     if D.involves(t, _DT_NAMES) and re.search(r'[0-9]{10,}', s):
